@@ -98,7 +98,14 @@ func boxHistoryOpt(c *vfCase, mon boxMonFlags, o boxOpts, genSeed, schedSeed uin
 					}
 					return victim
 				}}
-				cb.k.Pending = append([]boxUserEvent{ev}, cb.k.Pending...)
+				if g.r.Bool() {
+					cb.k.Pending = append([]boxUserEvent{ev}, cb.k.Pending...)
+				} else {
+					cb.afterFailedLoad = func() {
+						desc := ev.Apply(cb.k.Store)
+						cb.c.Logf("EVENT %s (right after a load of all services that must be retried): %s", ev.Kind, desc)
+					}
+				}
 			}
 		}
 	}
@@ -449,8 +456,14 @@ func (cb *cbox) crashOracle() {
 				}
 				for _, x := range w.IPs {
 					cx, _, _ := vfCanonIP(x)
+					recorded := false // a sharer re-adopting the address it had recorded itself is no thief
+					for _, y := range rec.IPs[w.Key] {
+						if y == cx {
+							recorded = true
+						}
+					}
 					for _, y := range a {
-						if cx == y {
+						if cx == y && !recorded && thief == "" {
 							thief = w.Key
 							phase = w.Phase
 						}
@@ -535,7 +548,7 @@ func boxFaultPlan(r *vfRand) []int {
 
 func TestVerif_C06(t *testing.T) {
 	rule := "each base history is first executed crash-free to enumerate its crash points (every scheduler yield, before/after every status write, after every user event), then re-executed with one crash at selected points (quick: up to 10 incl. status-write boundaries; thorough: up to 60) and a fault plan of <= 4 failing status writes (before/after apply); non-trivial = distinct (crash point label, pending/recorded constellation at the crash instant)"
-	vfMain(t, "C06", vfSizes{Quick: 30, Thorough: 80}, boxRule+rule, func(c *vfCase) {
+	vfMain(t, "C06", vfSizes{Quick: 60, Thorough: 100}, boxRule+rule, func(c *vfCase) {
 		genSeed, schedSeed := c.R.U64(), c.R.U64()
 		o := boxOpts{events: 18, epochMax: 3}
 		dry := boxHistoryOpt(c, boxMonFlags{}, o, genSeed, schedSeed, 0, nil, true)
